@@ -73,6 +73,7 @@ class Ctx:
         self.subst = fn.get("subst", {})                 # python source text of a sub-expression -> Coq term
         self.elementwise = fn.get("elementwise")         # {"arrays": [...], "uninit": coq name}: numpy code read pointwise
         self.nested_defs = bool(fn.get("nested_defs"))   # inner `def f(x): ...` becomes `let f := fun x => ...`
+        self.join_live_only = bool(fn.get("join_live_only"))
         self.bexprs = dict(spec.get("bexprs", {}))  # python source of a boolean expression -> coq bool term
         self.bexprs.update(fn.get("bexprs", {}))
         self.vectors = {k: list(v) for k, v in fn.get("vectors", {}).items()}  # name/attr text -> component terms
@@ -536,6 +537,9 @@ def block(ctx: Ctx, stmts, tail: str | None, on_raise: str | None) -> str:
             return f"(if {test}\n   then {block(ctx, list(s.body) + list(rest), tail, on_raise)}\n   else {block(ctx, s.orelse, None, on_raise)})"
         # neither branch returns: join the assigned variables through a tuple
         vs = assigned([s])
+        if ctx.join_live_only:   # opt-in: join only the variables that are read after the `if` (others may be unbound in a branch)
+            live = {n.id for st in rest for n in ast.walk(st) if isinstance(n, ast.Name)} | (set(__import__('re').findall(r"[A-Za-z_][A-Za-z_0-9']*", tail)) if tail else set())
+            vs = [v for v in vs if ctx.rename.get(v, v) in live or v in live]
         if not vs:
             raise Unsupported("if without effect")
         names = [ctx.rename.get(v, v) for v in vs]
